@@ -39,6 +39,7 @@ type Thread struct {
 	Why    string
 	objCtr int
 	Name   string
+	forbid string // label this thread's next hook point must not have (see ForbidNext)
 }
 
 // Point is one recorded choice point.
@@ -85,6 +86,10 @@ type Sched struct {
 	BlockedT map[int]string // thread id -> what it was blocked in
 	StepCap  bool
 	Diverged string
+	// Misdrawn: the code under test chose at random (a Go select with several ready cases)
+	// and did not draw the arm this schedule asks for; the execution is completed with default
+	// choices, discarded by the explorer and run again.
+	Misdrawn bool
 	done     chan struct{}
 	finished bool
 	Red      *Reduction
@@ -206,7 +211,7 @@ func (s *Sched) schedule(me *Thread, label string) {
 			s.finish()
 			select {}
 		}
-		if s.step < len(s.prefix) {
+		if s.step < len(s.prefix) && !s.Misdrawn {
 			idx = s.prefix[s.step]
 			if idx >= len(en) {
 				s.Diverged = fmt.Sprintf("replay diverged at point %d: choice %d of %d enabled (%s)", s.step, idx, len(en), label)
@@ -251,6 +256,7 @@ func (s *Sched) finish() {
 }
 
 func (s *Sched) exit(t *Thread) {
+	t.forbid = ""
 	t.state = stDone
 	s.schedule(t, "exit")
 }
@@ -285,10 +291,59 @@ func (s *Sched) Exit(t *Thread) { s.exit(t) }
 // Point is an explicit scheduling point.
 func (s *Sched) Point(label string) {
 	me := s.cur
-	if me == nil || me.ID < 0 || !s.VisibleClass[ClassHook] {
+	if me == nil || me.ID < 0 {
+		return
+	}
+	if me.forbid != "" {
+		if me.forbid == label {
+			s.Misdrawn = true
+		}
+		me.forbid = ""
+	}
+	if !s.VisibleClass[ClassHook] {
 		return
 	}
 	s.schedule(me, label)
+}
+
+// Choose is a choice point that is not about which thread runs: the harness asks which of n
+// alternatives an environment answer takes (e.g. which ready arm a select takes). It is
+// recorded like a free yield: alternatives cost no preemption.
+func (s *Sched) Choose(n int, label string) int {
+	me := s.cur
+	if me == nil || me.ID < 0 || n <= 1 {
+		return 0
+	}
+	if len(s.Points) >= s.MaxPoints {
+		s.StepCap = true
+		s.finish()
+		select {}
+	}
+	idx := 0
+	if s.step < len(s.prefix) && !s.Misdrawn {
+		idx = s.prefix[s.step]
+		if idx >= n {
+			s.Diverged = fmt.Sprintf("replay diverged at point %d: choice %d of %d alternatives (%s)", s.step, idx, n, label)
+			s.finish()
+			select {}
+		}
+	}
+	ids := make([]int, n)
+	for i := range ids {
+		ids[i] = -10 - i
+	}
+	s.Points = append(s.Points, Point{Enabled: ids, Chosen: idx, Cur: me.ID, CurEnabled: true, Label: "choose:" + label, Free: true})
+	s.step++
+	return idx
+}
+
+// ForbidNext says that the running thread's next hook point must not carry this label;
+// if it does, the execution is marked Misdrawn (the code drew another select arm than the
+// schedule asks for).
+func (s *Sched) ForbidNext(label string) {
+	if me := s.cur; me != nil && me.ID >= 0 {
+		me.forbid = label
+	}
 }
 
 // Await parks the running thread until pred holds (used in place of real blocking).
@@ -297,6 +352,7 @@ func (s *Sched) Await(pred func() bool, why string) {
 	if me == nil || me.ID < 0 {
 		return
 	}
+	me.forbid = ""
 	if s.VisibleClass[ClassHook] {
 		s.schedule(me, "await:"+why)
 	}
